@@ -135,6 +135,31 @@ def r1_1(ctx, rc):
         raise AnalysisError('recording/replaying exec calls not found')
 
 
+def recording_functions(ctx):
+    """Builder functions that reach the appender through their own private
+    helpers (not through the runners that execute nested operations)."""
+    R = ctx.R
+    prog = ctx.prog
+    app = R.builder + '._append_suboperation'
+    stop = set(perform_names(ctx))
+    reach = {app}
+    changed = True
+    while changed:
+        changed = False
+        for f in prog.funcs.values():
+            if f.cls != R.builder or f.qualname in reach or \
+                    f.qualname in stop:
+                continue
+            for c in prog.calls_in(f):
+                for g in prog.resolve_call(c, f):
+                    if isinstance(g, Func) and g.qualname in reach and \
+                            g.qualname not in stop and (
+                                not g.is_public or g.qualname == app):
+                        reach.add(f.qualname)
+                        changed = True
+    return [prog.funcs[q] for q in sorted(reach) if q != app]
+
+
 def r1_2(ctx, rc):
     R = ctx.R
     prog = ctx.prog
@@ -142,14 +167,7 @@ def r1_2(ctx, rc):
     ctx.E.func(app)
     FS = {READ, PROBE, DESTROY, CREATE, 'USER'}
     n = 0
-    for F in prog.funcs.values():
-        if F.cls != R.builder or F.qualname == app:
-            continue
-        if not any(isinstance(g, Func) and g.qualname == app
-                   for c in prog.calls_in(F)
-                   for g in prog.resolve_call(c, F)):
-            continue
-        n += 1
+    for F in recording_functions(ctx):
         sg = ctx.helpers_graph(F, stop=perform_names(ctx))
         performs = [x for x in sg.nodes if x.kind == 'leaf' and
                     isinstance(x.callee, Func) and
@@ -157,7 +175,8 @@ def r1_2(ctx, rc):
                     not x.callee.is_ctor_call and
                     ctx.E.eff.kinds(x.callee) & FS]
         if not performs:
-            raise AnalysisError('no perform call in ' + F.qualname)
+            continue          # a mere wrapper around the appender
+        n += 1
         for p in performs:
             w = Q.first_unguarded(sg, [p.id], lambda x: Q.is_call(x, app),
                                   lambda x: x.id in sg.all_exits())
@@ -190,7 +209,7 @@ def r1_2(ctx, rc):
                 if isinstance(g, Func) and g.cls == R.executor:
                     direct = g.qualname
                 elif isinstance(g, str):
-                    k, _ = ctx.E.eff.classify(g, call)
+                    k, _ = ctx.E.eff.classify(g, call, F)
                     if k in (READ, PROBE, DESTROY, CREATE):
                         direct = g
                 if direct is None:
